@@ -818,14 +818,16 @@ def merge_double_ended_times(
         ), "ds_fw and ds_bw are swapped"
 
     # Are all dt's within 1.5 seconds from one another?
-    if (ds_bw.time.size == ds_fw.time.size) and np.all(
-        ds_bw.time.values > ds_fw.time.values
+    if (
+        (ds_bw.time.size == ds_fw.time.size)
+        and np.all(ds_bw.time.values > ds_fw.time.values)
+        and np.all(ds_fw.time.values[1:] > ds_bw.time.values[:-1])
     ):
         if verify_timedeltas:
             dt_ori = (ds_bw.time.values - ds_fw.time.values) / np.array(
                 1, dtype="timedelta64[s]"
             )
-            dt_all_close = np.allclose(dt_ori, dt_ori[0], atol=1.5, rtol=0.0)
+            dt_all_close = dt_ori.max() - dt_ori.min() <= 1.5
         else:
             dt_all_close = True
 
@@ -870,8 +872,8 @@ def merge_double_ended_times(
         leaveout[1:-1] = np.isclose(dt[:-2], dt[2:], atol=1.5, rtol=0.0) * ~np.isclose(
             dt[:-2], dt[1:-1], atol=1.5, rtol=0.0
         )
-        iuse_chfw2 = np.array(iuse_chfw)[~leaveout]
-        iuse_chbw2 = np.array(iuse_chbw)[~leaveout]
+        iuse_chfw2 = np.array(iuse_chfw, dtype=int)[~leaveout]
+        iuse_chbw2 = np.array(iuse_chbw, dtype=int)[~leaveout]
 
         if verbose:
             for itfw, itbw in zip(
